@@ -68,3 +68,23 @@ func (s *Server) VerifTableSizes() (handshakes, sessions int) {
 
 // VerifSession returns the session a handle belongs to.
 func (c *Handle) VerifSession() VerifSessionInfo { return snapshotSession(c.ss) }
+
+// VerifSetSendCounter sets the counter the next packet sealed on this session
+// will carry: a long history (2^32 packets and more) cannot be produced by
+// sending, so the verification harness starts close to where it wants to look.
+func (c *Handle) VerifSetSendCounter(n uint64) {
+	c.ss.m.Lock()
+	c.ss.count = n
+	c.ss.m.Unlock()
+}
+
+// VerifSetSendCounter is the same for a client.
+func (c *Client) VerifSetSendCounter(n uint64) bool {
+	if c.state.Load() != clientStateOpen || c.ss == nil {
+		return false
+	}
+	c.ss.m.Lock()
+	c.ss.count = n
+	c.ss.m.Unlock()
+	return true
+}
